@@ -756,10 +756,20 @@ static void run_projdec(uint64_t seed, long cases)
       long want = 2L * (st + co) * ch, size = vchance(&r, 75) ? want : want + 2 * vrange(&r, -2, 2), nbytes, i;
       if (size < 0) size = 0;
       if (size > (long)sizeof dm - 8) continue;
+      if (size == want && want <= 0) continue;     /* zero-length VLA in the code under test: probed separately (mode projvla) */
       nbytes = size;                               /* the buffer always holds what the caller announces */
       for (i = 0; i < nbytes; i++) dm[i] = (unsigned char)(vchance(&r, 20) ? (vchance(&r, 50) ? 0x80 : 0xff) : vnext(&r));
       do_projdec(vbelow(&r, 2), !vchance(&r, 6), ch, st, co, dm, nbytes, size);
    }
+}
+
+/* the one call on which opus_projection_decoder_init declares a zero-length array before validating its arguments */
+static int run_projvla(void)
+{
+   unsigned char m[4] = {0, 0, 0, 0};
+   do_projdec(1, 1, 0, 1, 0, m, 0, 0);
+   do_projdec(0, 1, 1, 1, -1, m, 0, 0);
+   return 0;
 }
 
 static int run_search(uint64_t seed, long cases, int verbose, int directed)
@@ -1013,6 +1023,7 @@ int main(int argc, char **argv)
    else if (argc >= 4 && !strcmp(argv[1], "msenc")) run_msenc(strtoull(argv[2], 0, 10), atol(argv[3]));
 #else
    else if (argc >= 4 && !strcmp(argv[1], "projdec")) run_projdec(strtoull(argv[2], 0, 10), atol(argv[3]));
+   else if (argc >= 2 && !strcmp(argv[1], "projvla")) return run_projvla();
    else if (argc >= 4 && !strcmp(argv[1], "search")) return run_search(strtoull(argv[2], 0, 10), atol(argv[3]), argc >= 5 ? atoi(argv[4]) : 0, 0);
    else if (argc >= 4 && !strcmp(argv[1], "straddle")) return run_search(strtoull(argv[2], 0, 10), atol(argv[3]), argc >= 5 ? atoi(argv[4]) : 0, 1);
    else if (argc >= 2 && !strcmp(argv[1], "impulse")) return run_impulse();
